@@ -13,16 +13,59 @@ _ids = itertools.count()
 
 
 def gen_case(rng):
+    if rng.random() < 0.25:
+        return {'kind': 'listunits', 'scalar': True, 'n': 1, 'how': 'accumulate', 'upd_g': rng.random() < 0.6,
+                'ticks': [[rng.choice([500, 250, 1500])] for _ in range(rng.choice([1, 2]))], 'declared': False}
     n = rng.choice([1, 1, 2, 3])
     return {'kind': 'listunits', 'n': n, 'how': rng.choice(['set', 'set', 'accumulate']),
             'ticks': [[rng.choice([500, 250, 0, 1500]) for _ in range(n)] for _ in range(rng.choice([1, 2]))],
-            'declared': rng.random() < 0.3}
+            'declared': rng.random() < 0.3, 'init_mg': rng.random() < 0.3, 'upd_g': rng.random() < 0.3}
 
 
 def corpus():
-    return [{'kind': 'listunits', 'n': 1, 'how': 'set', 'ticks': [[500]], 'declared': False},
+    return [{'kind': 'listunits', 'scalar': True, 'n': 1, 'how': 'accumulate', 'upd_g': True, 'ticks': [[500], [250]],
+             'declared': False},
+            {'kind': 'listunits', 'n': 2, 'how': 'accumulate', 'ticks': [[500, 250]], 'declared': True, 'init_mg': True,
+             'upd_g': True},
+            {'kind': 'listunits', 'n': 1, 'how': 'set', 'ticks': [[500]], 'declared': False},
             {'kind': 'listunits', 'n': 1, 'how': 'accumulate', 'ticks': [[500], [250]], 'declared': False},
             {'kind': 'listunits', 'n': 2, 'how': 'set', 'ticks': [[500, 0]], 'declared': True}]
+
+
+def _scalar(case):
+    """a scalar variable declared in gram whose value arrives in milligram (initial state) and is then updated by
+    quantities in gram (the declared unit) or milligram"""
+    import warnings
+    warnings.simplefilter('ignore')
+    from vivarium.core.engine import Engine
+    from vivarium.core.process import Process
+    from vivarium.library.units import units
+    script = [list(t) for t in case['ticks']]
+
+    class W(Process):
+        name = f'listunits-s-{next(_ids)}'
+
+        def ports_schema(self):
+            return {'s': {'v': {'_default': 1.0 * units.g, '_emit': True}}}
+
+        def next_update(self, timestep, states):
+            if not script:
+                return {}
+            m = script.pop(0)[0]
+            return {'s': {'v': (m / 1000.0) * units.g if case.get('upd_g') else m * units.mg}}
+    obs = {}
+    try:
+        eng = Engine(processes={'w': W({})}, topology={'w': {'s': ('s',)}}, emitter={'type': 'null'},
+                     initial_state={'s': {'v': 2000.0 * units.mg}}, display_info=False, progress_bar=False)
+        rows = []
+        for _ in case['ticks']:
+            eng.update(1)
+            v = eng.state.get_value()['s']['v']
+            rows.append([str(getattr(v, 'units', type(v).__name__)), round(float(getattr(v, 'magnitude', v)), 9)])
+        obs['scalar_rows'] = rows
+    except Exception as e:  # noqa
+        obs['raised'] = f'{type(e).__name__}: {str(e)[:200]}'
+    return obs
 
 
 def reference(case):
@@ -36,6 +79,8 @@ def reference(case):
 
 
 def run_impl(case):
+    if case.get('scalar'):
+        return _scalar(case)
     import warnings
     warnings.simplefilter('ignore')
     from vivarium.core.engine import Engine
@@ -57,10 +102,17 @@ def run_impl(case):
         def next_update(self, timestep, states):
             if not script:
                 return {}
+            if case.get('upd_g'):
+                return {'s': {'v': [(m / 1000.0) * units.g for m in script.pop(0)]}}
             return {'s': {'v': [m * units.mg for m in script.pop(0)]}}
     obs = {}
     try:
+        init = {}
+        if case.get('init_mg'):
+            # the initial state gives the values in another compatible unit
+            init = {'s': {'v': [float(i + 1) * 1000.0 * units.mg for i in range(case['n'])]}}
         eng = Engine(processes={'w': W({})}, topology={'w': {'s': ('s',)}}, emitter={'type': 'ram'},
+                     initial_state=init,
                      display_info=False, progress_bar=False)
         rows = []
         for _ in case['ticks']:
@@ -84,6 +136,16 @@ def oracle(case, impl):
         return []
     if impl.get('raised'):
         return [f'units-raised: {impl["raised"]}']
+    if case.get('scalar'):
+        cur, want = 2.0, []
+        for mg in case['ticks']:
+            cur += mg[0] / 1000.0
+            want.append(['gram', round(cur, 9)])
+        if impl['scalar_rows'] != want:
+            return [f'scalar-units: a variable declared in gram, started at 2000 mg and updated by '
+                    f'{"gram" if case.get("upd_g") else "milligram"} quantities {case["ticks"]} holds '
+                    f'{impl["scalar_rows"]}; in its declared units: {want}']
+        return []
     want = reference(case)
     if impl.get('emitted') != want:
         return [f'list-units-emitted: the rows emitted for a variable whose default is a list of {case["n"]} quantities '
